@@ -240,6 +240,11 @@ class C19(engine.Property):
         for r in RULES:
             if rng.random() < 0.5:
                 op["kw"][r] = rng.random() < 0.5
+                if rng.random() < 0.15:
+                    # "exactly what was passed": a caller may pass something
+                    # other than a bool for a switch
+                    op["kw"][r] = rng.choice([None, 0, 1, "yes", "", 2.5])
+                    st.stats["probe:rule-switch-given-a-value-that-is-not-a-bool"] += 1
         if rng.random() < cfg["p_whitelist"]:
             spec = []
             for _ in range(rng.randint(0, 3)):
@@ -538,7 +543,7 @@ class C19(engine.Property):
             for r, val in got.items():
                 # first reading of a rule that was not passed: remember it
                 exp.setdefault(r, val)
-            if got != exp:
+            if got != exp or any(type(got[r]) is not type(exp[r]) for r in RULES):
                 return out, engine.viol(
                     "C19/rule-attribute-read-back-differs",
                     {"laws": lab, "expected": exp, "got": got},
